@@ -140,3 +140,17 @@ func (n *Net) ReleaseHeld() {
 // ExpectUserSnapshot tells the oracles that a snapshot with this state hash is
 // an operator-supplied one (user Restore).
 func (o *Oracles) ExpectUserSnapshot(hash uint64) { o.userSnaps[hash] = 0 }
+
+// LeaderOf returns the server observed as leader of a term ("" if none).
+func (o *Oracles) LeaderOf(term uint64) string { return o.leaderOf[term] }
+
+// TimeoutNowsTo counts TimeoutNow requests delivered to a server since a time.
+func (o *Oracles) TimeoutNowsTo(id string, sinceMs int64) int {
+	n := 0
+	for _, t := range o.timeoutNows[id] {
+		if t >= sinceMs {
+			n++
+		}
+	}
+	return n
+}
